@@ -196,6 +196,9 @@ SelfW(e, C) ==
       [] e.k = "rep"  -> LET n == IdxVal(e.n, C)
                          IN  (IF n < 0 \/ n >= 2^20 THEN 0 ELSE n) * FoldLeft(LAMBDA a, x : a + SelfW(x, C), 0, e.es)
       [] e.k = "cast" -> e.w
+      [] e.k = "sel"  -> LET h == IdxVal(e.h, C)
+                             l == IdxVal(e.l, C)
+                         IN  IF l < 0 \/ h < l \/ h >= 2^20 THEN 1 ELSE h - l + 1
       [] e.k = "un"   -> IF e.op \in {"~", "-", "+"} THEN SelfW(e.e, C) ELSE 1
       [] e.k = "bin"  -> IF e.op \in Arith THEN Max2(SelfW(e.a, C), SelfW(e.b, C))
                          ELSE IF e.op \in {"<<", ">>", "**"} THEN SelfW(e.a, C) ELSE 1
@@ -206,7 +209,7 @@ Sgn(e, C) ==
     CASE e.k = "num"  -> e.w = 0
       [] e.k = "id"   -> IF IsLoopVar(e, C) THEN FALSE ELSE Ref(e, C).sg
       [] e.k \in RefK \ {"id"} -> FALSE
-      [] e.k \in {"cat", "rep"} -> FALSE
+      [] e.k \in {"cat", "rep", "sel"} -> FALSE
       [] e.k = "cast" -> Sgn(e.e, C)
       [] e.k = "un"   -> IF e.op \in {"~", "-", "+"} THEN Sgn(e.e, C) ELSE FALSE
       [] e.k = "bin"  -> IF e.op \in Arith THEN Sgn(e.a, C) /\ Sgn(e.b, C)
@@ -230,6 +233,12 @@ Eval(e, w, sg, C) ==
             LET wi == Max2(e.w, SelfW(e.e, C))
                 v  == Eval(e.e, wi, Sgn(e.e, C), C)
             IN  Resize(SubSeq(v, 1, e.w), w, sg)
+      [] e.k = "sel"  ->      \* select on a concatenation: bits h..l of its self-determined value
+            LET b == EvalSelf(e.e, C)
+                h == IdxVal(e.h, C)
+                l == IdxVal(e.l, C)
+            IN  IF l < 0 \/ h < l \/ h >= Len(b) THEN X(w)
+                ELSE Resize(SubSeq(b, l + 1, h + 1), w, FALSE)
       [] e.k = "un"   ->
             (CASE e.op \in {"~", "-"} ->
                     LET a == Eval(e.e, w, sg, C)
